@@ -28,7 +28,7 @@ Definition full_any_state (cfg : config) : Prop := forall p h ps v j n jn,
    With the two-index reslice of the old code the sub-slice of the allocated array grew in place over the
    parent's next cell; with the current three-index reslice the model gives the reference value. ---- *)
 Definition h4 : heap := [OArr [HNum 1; HNum 2; HNum 7]].
-Definition p4 : path := [PS (Some 0%Z) (Some 1%Z); PI 1].
+Definition p4 : path := [PS (Some (bz 0)) (Some (bz 1)); PI 1].
 
 Example D4_regression :
   let run cfg := match update cfg h4 (Some [PArr 0 0]) (HArr 0 0 3 3) p4 (HNum 7%Z) with
@@ -47,7 +47,7 @@ Proof. induction fuel; auto. simpl. simpl in IHfuel. rewrite IHfuel. auto. Qed.
 
 Example D5_cyclic :
   exists h' A',
-    update current h5s (Some [PArr 1 0]) (HArr 1 0 2 2) [PS (Some 1%Z) None] (HArr 2 0 1 1) = Some (h', A', HArr 1 0 2 2) /\
+    update current h5s (Some [PArr 1 0]) (HArr 1 0 2 2) [PS (Some (bz 1)) None] (HArr 2 0 1 1) = Some (h', A', HArr 1 0 2 2) /\
     (forall fuel, abs fuel h' (HArr 1 0 2 2) = None) /\
     abs 5 h5s (HArr 1 0 2 2) = Some (JArr [JNum 0; JArr [JNum 1]]) /\
     abs 5 h5s (HArr 2 0 1 1) = Some (JArr [JArr [JArr [JNum 1]]]).
